@@ -81,3 +81,60 @@ def u_b_dominates(ctx):
         e.prove(tag + ":result==spec", _t(res) == spec)
         return "ok"
     modeb.run_shapes(ctx, "dominates", [(1,), (2,), (3,)], body)
+
+
+# ---------------------------------------------------------------------------------------------------
+# distance-to-preference-vector transformations == their geometric definition (mode B, all real coordinates)
+from pyvc import lemma
+TRANS = ["pybrops/breed/prot/sel/prob/trans.py:trans_ndpt_to_vec_dist", "pybrops/breed/prot/sel/transfn.py:trans_ndpt_to_vec_dist"]
+
+
+@unit(P, "B[trans_ndpt_to_vec_dist == distance of the range-normalised weighted point to the preference ray]", "B", bounded=True,
+      targets=TRANS,
+      note="bounded(shape): fronts of <= 3 points x <= 2 objectives; coordinates, objective weights (non-zero) and the preference "
+           "vector symbolic reals: every range > 0 however small is rescaled to [0,1], exactly constant objectives contribute 0")
+def u_b_vecdist(ctx):
+    ctx.trust(*lemma.TRUST)
+
+    def body(e, shape, tag):
+        import importlib
+        npt, nobj, which = shape[:3]
+        mod = importlib.import_module("pybrops.breed.prot.sel.prob.trans" if which == 0 else "pybrops.breed.prot.sel.transfn")
+        f = mod.trans_ndpt_to_vec_dist
+        pts = barr.fresh("f", (npt, nobj), "float64")
+        if nobj == 1:
+            wt = barr.fresh("w", (nobj,), "float64")
+            vec = barr.fresh("v", (nobj,), "float64")
+            for k in range(nobj):
+                e.assume(R(wt[k]) != 0)
+            e.assume(sum((R(vec[k]) * R(vec[k]) for k in range(nobj)), z3.RealVal(0)) > 0)
+        else:
+            # two objectives: concrete sign weights and preference vectors keep the queries polynomial of low degree
+            wt = numpy.array(shape[3], dtype=float)
+            vec = numpy.array(shape[4], dtype=float)
+        snap = [[_t(pts[i, k]) for k in range(nobj)] for i in range(npt)]
+        d = f(pts, wt, vec)
+        e.prove(tag + ":one-distance-per-point", tuple(d.shape) == (npt,))
+        # definition: y = w*x; z_k = (y_k - min_k) / (max_k - min_k) if max_k > min_k else 0; d = | z - (z.v / v.v) v |
+        Y = [[R(wt[k]) * snap[i][k] for k in range(nobj)] for i in range(npt)]
+        Z = [[None] * nobj for _ in range(npt)]
+        for k in range(nobj):
+            col = [Y[i][k] for i in range(npt)]
+            mn, mx = col[0], col[0]
+            for c in col[1:]:
+                mn = z3.If(c < mn, c, mn)
+                mx = z3.If(c > mx, c, mx)
+            for i in range(npt):
+                Z[i][k] = z3.If(mx > mn, (Y[i][k] - mn) / (mx - mn), z3.RealVal(0))
+        vv = sum((R(vec[k]) * R(vec[k]) for k in range(nobj)), z3.RealVal(0))
+        for i in range(npt):
+            t = sum((Z[i][k] * R(vec[k]) for k in range(nobj)), z3.RealVal(0)) / vv
+            sq = sum(((Z[i][k] - t * R(vec[k])) * (Z[i][k] - t * R(vec[k])) for k in range(nobj)), z3.RealVal(0))
+            e.prove(tag + ":d[%d]>=0 and d[%d]^2 == squared distance to the preference ray" % (i, i),
+                    z3.And(R(d[i]) >= 0, R(d[i]) * R(d[i]) == sq), timeout_ms=20000)
+        e.prove(tag + ":front-not-modified", all(_t(pts[i, k]).eq(snap[i][k]) for i in range(npt) for k in range(nobj)))
+        return "ok"
+    shapes = [(1, 1, 0), (2, 1, 0), (2, 1, 1), (2, 2, 0, (1, -1), (1, 1)), (2, 2, 1, (-1, -1), (2, 1))]
+    if ctx.tier == "thorough":
+        shapes += [(3, 1, 1), (3, 2, 0, (1, 1), (1, 3)), (3, 2, 1, (1, -1), (1, 1))]
+    modeb.run_shapes(ctx, "vecdist", shapes, body, max_paths=5000)
